@@ -48,7 +48,7 @@ impl Property for C12 {
             knobs: Knobs { max_nodes: 24, max_ops: 12, variant, ..Default::default() },
         };
         match tier {
-            Tier::Quick => vec![mk("clone_node", 16_000, 0), mk("clone_with_prefixes", 20_000, 1), mk("xot_clone", 4_000, 2)],
+            Tier::Quick => vec![mk("clone_node", 16_000, 0), mk("clone_with_prefixes", 60_000, 1), mk("xot_clone", 4_000, 2)],
             Tier::Thorough => vec![mk("clone_node", 600_000, 0), mk("clone_with_prefixes", 600_000, 1), mk("xot_clone", 100_000, 2)],
         }
     }
@@ -190,6 +190,9 @@ impl C12 {
         o.attr_alpha = Alpha::Tiny;
         o.scoping = if src.ratio(3, 4) { Scoping::Well } else { Scoping::Free };
         o.xml_attrs = false;
+        // alias prefixes and re-declarations make "bound outside, shadowed inside" layouts frequent
+        o.redundant_decls = src.bool();
+        o.max_depth = 7;
         let doc = if src.bool() { gen::gen_document(src, &o) } else { gen::gen_element_tree(src, &o) };
         let mut xot = Xot::new();
         let mut hs = vec![];
